@@ -30,3 +30,14 @@ package conv
 //@   props C12
 //@   trusted
 //@   note reflect-based traversal outside a recover scope; totality checked only by the bounded stand-ins of C12 and C15
+
+// the reflect-based environment builders are outside the verified subset;
+// callers under contract see them as functions without heap effect
+//@ func ValEnvOf
+//@   props C07
+//@   trusted
+//@   modifies
+//@ func TypeEnvOf
+//@   props C07
+//@   trusted
+//@   modifies
